@@ -434,6 +434,40 @@ func initExterns() {
 		err := tr.freshVal(tup.At(1).Type(), "nodeerr")
 		return tupleOf(resT, &Val{T: tup.At(0).Type(), A: []string{"(uf2 32 " + args[0].one() + " " + args[1].one() + ")"}}, err)
 	}}
+	externs["github.com/taskctl/taskctl/pkg/task.FromCommands"] = &externH{mods: []string{"$alloc", "$pub"}, doc: "task.FromCommands returns a freshly allocated task",
+		fn: func(tr *FnCtx, st *State, args []*Val, resT types.Type, instr ssa.Instruction, mode string) *Val {
+			tr.use("task.FromCommands returns a freshly allocated, non-nil *task.Task")
+			return &Val{T: resT, A: []string{tr.newObj(st)}}
+		}}
+	externs["(*gopkg.in/yaml.v2.Decoder).Decode"] = &externH{mods: nil, doc: "yaml Decode(&v) writes only the pointee v; every map/slice/pointer it stores there is freshly allocated (or nil)",
+		fn: func(tr *FnCtx, st *State, args []*Val, resT types.Type, instr ssa.Instruction, mode string) *Val {
+			tr.use("yaml.v2 Decoder.Decode(&v) writes only through its argument: the pointee is overwritten with freshly allocated (or nil) maps/slices; existing memory is unchanged")
+			err := tr.freshVal(resT, "yamlerr")
+			d := unboxArg(tr, instr, 1)
+			if d == nil || len(d.A) != 1 || d.Loc != nil {
+				tr.note("yaml Decode into a non-first-class pointer: everything havocked")
+				tr.havocAllKeepHeld(st, nil)
+				return err
+			}
+			pt, ok := d.T.Underlying().(*types.Pointer)
+			if !ok {
+				tr.havocAllKeepHeld(st, nil)
+				return err
+			}
+			a0 := tr.cur(st, compAlloc)
+			na := tr.havocComp(st, compAlloc)
+			tr.assume("(>= " + na + " " + a0 + ")")
+			atoms := tr.W.flatten(pt.Elem())
+			for i, c := range tr.W.cellComps(pt.Elem()) {
+				old := tr.cur(st, c)
+				fv := tr.freshConst("yaml", elemSort(c.Sort))
+				tr.set(st, c, store(old, d.A[0], fv))
+				if i < len(atoms) && atoms[i].Ref {
+					tr.assume(or(eq(fv, "0"), and("(>= "+fv+" "+a0+")", "(< "+fv+" "+na+")")))
+				}
+			}
+			return err
+		}}
 	externs["(*sync.WaitGroup).Add"] = &externH{mods: []string{"$wgTokens"}, doc: "WaitGroup.Add(n): ghost token counter += n",
 		fn: func(tr *FnCtx, st *State, args []*Val, resT types.Type, instr ssa.Instruction, mode string) *Val {
 			tr.use("sync.WaitGroup: ghost token counter $wgTokens (Add adds, Done removes one); Wait returns when it is zero")
